@@ -19,7 +19,7 @@ func init() { core.Register(c19{}) }
 func (c19) ID() string    { return "C19" }
 func (c19) Level() string { return "exploration" }
 func (c19) Rule() string {
-	return "(a) totality: component_definition.NewProperty is called under recover() on seeded arbitrary byte strings (uniform bytes; strings over the grammar's own alphabet ',= [](){}:$#\"' and letters; structured tags mutated by byte insertion / deletion / duplication / bracket unbalancing), 64 strings per case; every accessor (TagVal, Args().Find/Has/String, IsRequired) is exercised too. (b) faithfulness: structured tags 'v,n1=a b,n2=[x,y] z,...' generated from a grammar (value with optional bracketed groups / placeholders with defaults, 0..5 uniquely named arguments, items that are plain tokens or balanced bracket groups containing commas and spaces) are parsed by an independent reference parser (depth-counting scanner); TagVal must equal the text before the first top-level comma, Find(name) and Find(Title(name)) must return the items, bracketed groups must be intact; IsRequired() must be false iff an explicit required=false / Required=false item is present. (c) end-to-end: reflect.StructOf holders carrying generated wire / value / prop tags with extra arguments are started on the real container and must behave as the parsed arguments say (optional vs required unsatisfiable points; prop shorthand with bracketed defaults). non-trivial = structured tag with >= 2 arguments and a bracketed group, or a mutated string that still parses to >= 1 argument; distinct = the tag string; isolated family: a user post-processor relaxing its own tag's points via SetArg must not relax a point of another tag with the byte-identical tag value, in this or later starts; empty argument items and empty-valued known arguments end-to-end; AddArg / SetArg under either spelling of the key; empty value part followed by arguments end-to-end; formatting the property between parsing and reading; crowd family: 6..25 components with prop tags in one application, every point bound per its own tag; configuredCommas family (configured texts containing commas / name=value pieces are data); values that look like arguments; percent signs in arguments; argument names with separators; by-type points whose candidates all lack the qualifier; value parts and defaults ending in a backslash; empty segments between arguments"
+	return "(a) totality: component_definition.NewProperty is called under recover() on seeded arbitrary byte strings (uniform bytes; strings over the grammar's own alphabet ',= [](){}:$#\"' and letters; structured tags mutated by byte insertion / deletion / duplication / bracket unbalancing), 64 strings per case; every accessor (TagVal, Args().Find/Has/String, IsRequired) is exercised too. (b) faithfulness: structured tags 'v,n1=a b,n2=[x,y] z,...' generated from a grammar (value with optional bracketed groups / placeholders with defaults, 0..5 uniquely named arguments, items that are plain tokens or balanced bracket groups containing commas and spaces) are parsed by an independent reference parser (depth-counting scanner); TagVal must equal the text before the first top-level comma, Find(name) and Find(Title(name)) must return the items, bracketed groups must be intact; IsRequired() must be false iff an explicit required=false / Required=false item is present. (c) end-to-end: reflect.StructOf holders carrying generated wire / value / prop tags with extra arguments are started on the real container and must behave as the parsed arguments say (optional vs required unsatisfiable points; prop shorthand with bracketed defaults). non-trivial = structured tag with >= 2 arguments and a bracketed group, or a mutated string that still parses to >= 1 argument; distinct = the tag string; isolated family: a user post-processor relaxing its own tag's points via SetArg must not relax a point of another tag with the byte-identical tag value, in this or later starts; empty argument items and empty-valued known arguments end-to-end; AddArg / SetArg under either spelling of the key; empty value part followed by arguments end-to-end; formatting the property between parsing and reading; crowd family: 6..25 components with prop tags in one application, every point bound per its own tag; configuredCommas family (configured texts containing commas / name=value pieces are data); values that look like arguments; percent signs in arguments; argument names with separators; by-type points whose candidates all lack the qualifier; value parts and defaults ending in a backslash; empty segments between arguments; several values added at once through AddArg"
 }
 func (c19) Assumptions() []string {
 	return []string{
